@@ -76,9 +76,11 @@ def onDestUpdated (c : Ctl) (ch : Chain) (now : Int) : Ctl :=
   if l.2 then { terms := l.1, run := none, err := true } else
   match l.1.dest with
   | none => { terms := l.1, run := none, err := true }
-  | some h =>
-    if c.terms.dest = some h then { c with err := false }
-    else { terms := l.1, run := some now, err := false }
+  | some _ =>
+    -- the code means to leave a fulfilment with the same destination alone, but compares the adjusted
+    -- destination (user name = contract address) with the raw one, which never match: the watcher is always
+    -- (re)started — and, started on a contract that is over, stops by itself ten seconds later (`exitAt`)
+    { terms := l.1, run := some now, err := false }
 
 /-- a fresh controller (start-up, restart): the factory hands it the terms without a destination -/
 def boot (ch : Chain) (now : Int) : Ctl :=
